@@ -215,6 +215,21 @@ def run(ctx: core.Ctx):
                 break
             check_export(ctx, fl, engines[n] if v % 4 else reversed_engines[n], n, v, "each", v)
             ctx.case(("each", n, v), nontrivial=v > 1)
+    # the same exporter and the same engine again after the range of an input was changed in place: the grid follows the current range
+    ex_ = fl.FldExporter()
+    for n in (1, 2):
+        e_ = make_engine(fl, n, RANGES)
+        for (lo_, hi_) in ((0.0, 1.0), (0.25, 0.75), (-2.0, 6.0)):
+            e_.input_variables[0].minimum, e_.input_variables[0].maximum = lo_, hi_
+            pool = check_export.__dict__.get("pool", {})
+            saved = dict(pool)
+            pool["ex"], pool["n"] = ex_, 0          # check_export takes the pooled exporter on odd counts
+            check_export.pool = pool
+            check_export(ctx, fl, e_, n, 9 ** n, "all", 9)
+            pool["n"] = 0
+            check_export(ctx, fl, e_, n, 9, "each", 9)
+            check_export.pool = saved or {"n": 0}
+            ctx.case(("range-edited", n, lo_), nontrivial=True)
     # switches, separators, decimals
     for dec in range(1, 10):
         for sep in (" ", ",", ";", "\t"):
